@@ -34,3 +34,19 @@ Qed.
 
 Theorem rs_mds_10_3 : mds (rs_codec 10 3) 10 3.
 Proof. exact (check_mds_sound 10 3 ltac:(lia) rs_check_10_3). Qed.
+
+(* parity row i of the d/p code depends on d and i only, not on p (why "10/3 vs 10/1" is benign):
+   checked for every d <= 6 with p1 <= p2 <= 4, and for 10/1 vs 10/3 *)
+Definition rows_prefix (d p1 p2 : nat) : bool :=
+  match rs_matrix d p1, rs_matrix d p2 with
+  | Some m1, Some m2 =>
+      if list_eq_dec (list_eq_dec Z.eq_dec) (skipn d m1) (firstn p1 (skipn d m2)) then true else false
+  | _, _ => false
+  end.
+
+Lemma rs_parity_row_indep_small :
+  forallb (fun d => forallb (fun p2 => forallb (fun p1 => rows_prefix d p1 p2) (seq 1 p2)) (seq 1 4)) (seq 1 6) = true.
+Proof. vm_cast_no_check (eq_refl true). Qed.
+
+Lemma rs_parity_row_indep_10 : rows_prefix 10 1 3 = true.
+Proof. vm_cast_no_check (eq_refl true). Qed.
